@@ -100,7 +100,11 @@ def c02_family():
         out.append(dict(mod="gen::c02g", name=f"enc_kat_{rate}_{k}_{r}", unwind=66,
                         body=f"crate::c02::enc_kat::<{ty}>({k}, {r}, &crate::gen::gmat::KAT_IN_{rate.upper()}_{k}_{r}, &crate::gen::gmat::KAT_OUT_{rate.upper()}_{k}_{r})",
                         kind="enc_kat", rate=rate, k=k, r=r, small=small))
-        if small:
+        # 3-run additivity over a chunk of size 4 on both transforms (high rate with 3-4 recovery shards,
+        # low (3,4)): the SAT query does not finish within 1 h (measured); these configurations keep
+        # their basis harnesses (C02) but have no additivity harness
+        hard = (rate == "high" and r in (3, 4) and k <= 4) or (rate, k, r) == ("low", 3, 4)
+        if small and not hard:
             out.append(dict(mod="gen::c02g", name=f"enc_additive_{rate}_{k}_{r}", unwind=66,
                             body=f"crate::c02::enc_additive::<{ty}, {k}, {r}>()",
                             kind="enc_additive", rate=rate, k=k, r=r, small=small))
